@@ -1,11 +1,13 @@
 import FimVerif.Drivers.Proto
 import FimVerif.Model.Validate
+import FimVerif.Proofs.Lemmas.C10Dec
 /-! Driver for C10: runs `Validate.validate` / `Validate.connect` on request lines.
 
 `["validate", overrides|null, exp, [[ty,[props]]..], [[ty, site|null, [props], owner|null, [iface..]]..]]`
   iface = `["d", kind]` | `["p", null | [[kind, owner|null]..]]`
   overrides = `{"svc": {ty: [min,num,sites,inst,[req],[forb],[iftypes]]}, "node": {ty: [[req],[forb]]}}`
-  reply `[status, [site|null ..]]`, status = "ok" | error kind
+  reply `[status, [site|null ..], specOK, specFull]`, status = "ok" | error kind; the two booleans are
+  `decide (SpecOK cfg t)` and `decide (SpecFull cfg t)` (the declarative specifications of Proofs/Lemmas/C10.lean)
 `["connect", viaCtor, ty, kind, ownerPresent, connected]` reply `[status]` -/
 open Lean FimVerif.Proto FimVerif.Validate
 open FimVerif.Gen.Constraints (SvcRow NodeRow)
@@ -79,8 +81,10 @@ def handle (j : Json) : Json :=
   | .arr #[.str "validate", ov, .bool exp, nodes, svcs] =>
     match applyOverrides genCfg ov, (arr? nodes).bind (·.mapM parseNode), (arr? svcs).bind (·.mapM parseSvc) with
     | some c, some ns, some ss =>
-      let r := validate c { exp := exp, nodes := ns, svcs := ss }
-      Json.arr #[Json.str (status r.1), Json.arr (r.2.svcs.map (fun s => siteJson s.site)).toArray]
+      let t : Topo := { exp := exp, nodes := ns, svcs := ss }
+      let r := validate c t
+      Json.arr #[Json.str (status r.1), Json.arr (r.2.svcs.map (fun s => siteJson s.site)).toArray,
+                 Json.bool (decide (SpecOK c t)), Json.bool (decide (SpecFull c t))]
     | _, _, _ => err "bad-args"
   | .arr #[.str "connect", .bool via, .str ty, .str kind, .bool own, .bool conn] =>
     Json.arr #[Json.str (status (connect genCfg via ty kind own conn))]
